@@ -1,4 +1,4 @@
-import Ledger.Proofs.ReplSteps
+import Ledger.Proofs.ReplRace
 
 /-!
 # C33 — Replication delivers every log, in order, despite failures
@@ -154,6 +154,14 @@ theorem at_least_once_partial {c : Cfg} (hps : 1 ≤ c.ps) {s : State} {h : Hand
     (hh : s.handler = some h) (hns : h.stopReq = false) (h1 : h.last < k) (h2 : k ≤ s.nLogs) :
     ∃ s', Steps c Label.progress s s' ∧ Delivered s' k :=
   deliver_beyond_cursor hps (wf_reach r) hh hns h1 h2
+
+/-- The full liveness claim is false for the code as it is: from the reachable state
+    `raceState2` (pipeline running, nothing pending) NO sequence of failure-free
+    internal steps, however long, delivers log 1 or log 2 again. -/
+theorem at_least_once_counterexample {s' : State}
+    (st : Steps (Cfg.real 100) Label.progress raceState2 s') : ¬ Delivered s' 1 ∧ ¬ Delivered s' 2 :=
+  ⟨stuck_not_delivered (stuck_steps st stuck_raceState2) (by omega),
+   stuck_not_delivered (stuck_steps st stuck_raceState2) (by omega)⟩
 
 /-- non-vacuity of the hypotheses: page size 1, three logs, handler down after a
     manager stop with an export failure on the way -/
